@@ -58,6 +58,9 @@ def gen_cases(tier, rng, harder=False):
             for k in range(0, KMAX_SERVER + 1):
                 if thorough or T == -1 or k % 2 == off:
                     cases.append("sdeath %s %d %d" % (tr, k, T))
+        for k in range(0, KMAX_SERVER + 1):
+            if thorough or k % 3 == 0:
+                cases.append("sdeathq %s %d 300" % (tr, k))
     return cases
 
 
@@ -216,7 +219,7 @@ def monitor_server(case, lines, crash, fixed):
                 continue                      # the hanging call (reported above)
             affected = death >= 0 and end >= death
             el = end - max(start, death) if affected else 0
-            info["calls"].append((name, tmo, rc, el, start >= death >= 0))
+            info["calls"].append((name, tmo, rc, el, d.get("phase") == "2"))
             neg = not rc.lstrip("-").isdigit()
             if affected:
                 if name in ("sendv_recv", "event_recv", "recv") and tmo >= 0:
@@ -230,7 +233,7 @@ def monitor_server(case, lines, crash, fixed):
                 if first_disc_end is not None and start >= first_disc_end and el > SLACK_MS and name != "connect":
                     bad.append("later call %s(timeout %d) took %d ms to fail although the disconnect had been reported"
                                % (name, tmo, el))
-                if start >= death and name in ("sendv_recv", "send") and not (neg and rc in DISC_OK):
+                if d.get("phase") == "2" and name in ("sendv_recv", "send") and not (neg and rc in DISC_OK):
                     bad.append("%s started after the server's death returned %s (no disconnect error)" % (name, rc))
                 if name == "is_connected" and rc != "0":
                     bad.append("is_connected = %s after the server's death" % rc)
